@@ -54,7 +54,7 @@ func (g *heapGen) newName() []int {
 	n := 1 + g.rng.Intn(4)
 	s := make([]int, n)
 	for i := range s {
-		if g.mode == "C01" && g.rng.Intn(6) == 0 {
+		if (g.mode == "C01" || g.mode == "C19") && g.rng.Intn(6) == 0 {
 			s[i] = int(g.pick(weirdNameChars))
 		} else {
 			s[i] = int(g.pick(nameChars))
@@ -160,6 +160,9 @@ func (g *heapGen) newObject(forceAlign bool) *Step {
 	}
 	if g.mode == "C06" || g.mode == "C05" {
 		al = 1
+	}
+	if g.mode == "C13" && g.rng.Intn(6) == 0 {
+		al = 3 // an alphabet that is neither nucleotide nor protein
 	}
 	kind := "align"
 	if !forceAlign && (g.mode == "C01" || g.mode == "C06" || g.mode == "C13") && g.rng.Intn(4) == 0 {
@@ -269,7 +272,8 @@ var opsByMode = map[string][]string{
 	"C01": {"Add", "Add", "Add", "Append", "Concat", "Rename", "Rename", "RenameRegexp", "CleanNames", "TrimNames", "TrimNamesAuto",
 		"AppendSeqIdentifier", "Sort", "Sort", "ShuffleSequences", "FilterLength", "Deduplicate", "Translate", "Clone", "CloneSeqBag",
 		"Sample", "Clear", "SetSequenceChar", "ReplaceChar", "Replace", "AutoAlphabet", "RemoveGapSeqs", "RemoveGapSites", "Unalign",
-		"IgnoreIdentical", "SubAlign", "Identical", "TrimSequences", "Compress", "SetAlphabet"},
+		"IgnoreIdentical", "SubAlign", "Identical", "TrimSequences", "Compress", "SetAlphabet", "RemoveMajorityCharacterSites", "RemoveCharacterSites",
+		"RemoveCharacterSeqs"},
 	"C04": {"SubAlign", "SubAlign", "SelectSites", "SelectSites", "InverseCoordinates", "InversePositions", "TrimSequences",
 		"RefCoordinates", "RefCoordinates", "RefSites", "Concat", "Append", "Split", "Split", "Transpose", "DiffWithFirst", "ReplaceMatchChars", "Rename"},
 	"C06": {"ReverseComplement", "ReverseComplement", "ReverseComplementSequences", "ReverseComplementSequences", "ToUpper", "ToLower", "Unalign", "Clone"},
@@ -822,8 +826,9 @@ func (g *heapGen) args(h *heapRun, op string, recv int, o *obj) *Step {
 		if !needAl() || n == 0 || L < 1 {
 			return nil
 		}
-		qs := []string{"fasta", "phylip", "nexus", "clustal", "stockholm", "paml", "dist", "sw", "swatg", "swatg", "orf", "string", "protdist"}
+		qs := []string{"fasta", "phylip", "nexus", "clustal", "stockholm", "paml", "dist", "sw", "swatg", "swatg", "orf", "string", "protdist", "phaseref", "phasentref"}
 		a["q"] = qs[g.rng.Intn(len(qs))]
+		a["other"] = f64(1 + g.rng.Intn(len(h.objs)))
 	default:
 		panic(harnessPanic("harness: generator has no arguments for " + op))
 	}
